@@ -3245,10 +3245,10 @@ fn get_discovered_reader_incompatible_qos_policy_list(
         incompatible_qos_policy_list.push(DURABILITY_QOS_POLICY_ID);
     }
     if publisher_qos.presentation.access_scope < discovered_reader_data.presentation().access_scope
-        || publisher_qos.presentation.coherent_access
-            != discovered_reader_data.presentation().coherent_access
-        || publisher_qos.presentation.ordered_access
-            != discovered_reader_data.presentation().ordered_access
+        || (discovered_reader_data.presentation().coherent_access
+            && !publisher_qos.presentation.coherent_access)
+        || (discovered_reader_data.presentation().ordered_access
+            && !publisher_qos.presentation.ordered_access)
     {
         incompatible_qos_policy_list.push(PRESENTATION_QOS_POLICY_ID);
     }
@@ -3301,12 +3301,12 @@ fn get_discovered_writer_incompatible_qos_policy_list(
 
     if subscriber_qos.presentation.access_scope
         > publication_builtin_topic_data.presentation().access_scope
-        || subscriber_qos.presentation.coherent_access
-            != publication_builtin_topic_data
+        || (subscriber_qos.presentation.coherent_access
+            && !publication_builtin_topic_data
                 .presentation()
-                .coherent_access
-        || subscriber_qos.presentation.ordered_access
-            != publication_builtin_topic_data.presentation().ordered_access
+                .coherent_access)
+        || (subscriber_qos.presentation.ordered_access
+            && !publication_builtin_topic_data.presentation().ordered_access)
     {
         incompatible_qos_policy_list.push(PRESENTATION_QOS_POLICY_ID);
     }
